@@ -329,6 +329,32 @@ func internTables(c *an.Ctx, R string, withRuleFields bool) {
 	if !withRuleFields {
 		return
 	}
+	// the prefix id is interned under the name the transformation was looked up by: AddTransformation receives, as
+	// its name, the very string that selected the function (two different functions can never share a name then;
+	// a name derived from the function value - code pointer, reflection - does not distinguish closures)
+	if addT := c.Fn(R, "internal/corazawaf.(*Rule).AddTransformation"); addT != nil {
+		nAdd := 0
+		for _, s := range c.P.CallSites(func(in ssa.Instruction) bool { return an.IsCallTo(in, addT) }) {
+			if rp := relPkg(s.Fn); strings.HasPrefix(rp, "testing") || strings.HasPrefix(rp, "examples") {
+				continue
+			}
+			nAdd++
+			args := s.Call.Common().Args
+			name, fnv := args[1], args[2]
+			okName := false
+			// the function value comes from a lookup call whose argument is the same name
+			for d := range an.Deps(fnv) {
+				if call, ok := d.(*ssa.Call); ok && call.Call.StaticCallee() != nil && strings.HasPrefix(call.Call.StaticCallee().Name(), "GetTransformation") {
+					if len(call.Call.Args) > 0 && (call.Call.Args[0] == name || an.Expr(call.Call.Args[0]) == an.Expr(name)) {
+						okName = true
+					}
+				}
+			}
+			c.Check(okName, R, "AddTransformation call in "+an.RelName(s.Fn)+" names the transformation by its lookup key", s.Call.Pos(), tempName.ReplaceAllString(an.Expr(name), ""),
+				"AddTransformation is given the name "+tempName.ReplaceAllString(an.Expr(name), "")+", which is not the key its function was looked up by: prefix ids are interned by name, so two different transformations that get the same derived name share a prefix id and with it their cache entries")
+		}
+		c.MinCount(R, "AddTransformation call sites", nAdd, 1)
+	}
 	// the two tables are inverses of each other: the name recorded for a new id is the name it is looked up by,
 	// and that name is built from the parent's recorded name and the transformation added
 	if tid := c.Fn(R, "internal/corazawaf.transformationID"); tid != nil {
